@@ -716,7 +716,14 @@ def _xr_reproject_ds(
             dv, how=dst_geobox, resampling=resampling, dst_nodata=dst_nodata, **kw
         )
 
-    return src.map(_maybe_reproject)
+    # NOTE: not using ``src.map(..)`` here. With ``keep_attrs`` enabled (default
+    # in recent xarray) it copies attributes of the source variables and of the
+    # source *coordinates* onto the result, undoing the pruning of spatial
+    # attributes and replacing ``spatial_ref`` of the output with that of the
+    # source; with ``keep_attrs=False`` it wipes ``spatial_ref`` attributes.
+    data_vars = {name: _maybe_reproject(dv) for name, dv in src.data_vars.items()}
+    attrs = {k: v for k, v in src.attrs.items() if k not in SPATIAL_ATTRIBUTES}
+    return xarray.Dataset(data_vars, attrs=attrs)
 
 
 def _xr_reproject_da(
